@@ -1,5 +1,6 @@
 """C02 — MT round trip is stable."""
 from .common import Report
+from . import accept
 from . import grules, roundtrip, headers, numdate
 
 LEVEL = "translation_validation"
@@ -30,4 +31,6 @@ def run(F, tier):
             rep.sample({"type": tm.name,
                         "parser_steps": ["%s:%s" % (s.tag, s.kind) for s in tm.g.sites][:30],
                         "serialiser_appends": ["%s:%s" % (".".join(a.path or ("?",)), a.kind) for a in tm.w.appends][:30]})
+    accept.u7(rep, F, "fields")
+    accept.u7(rep, F, "headers")
     return rep
